@@ -263,6 +263,7 @@ fn run_case(c: &PlayCase, st: &mut Stats) -> Result<(), String> {
     let mut b = to_board(&pos)?;
     let mut aux = Expand(c.aux);
     let mut tf = ThreeFold::new();
+    let mut scratch_buf = Board::standard();
     let mut counts: HashMap<Key, u32> = HashMap::new();
     let add = |tf: &mut ThreeFold, counts: &mut HashMap<Key, u32>, b: &Board, p: &Pos, st: &mut Stats| -> Result<(), String> {
         let flag = tf.add(*b);
@@ -317,7 +318,22 @@ fn run_case(c: &PlayCase, st: &mut Stats) -> Result<(), String> {
         }
         let m = pick(&pos, &legal, bias, idx);
         pos = pos.apply(m);
-        b = b.move_new(to_cm(m)).ok_or_else(|| format!("C04 move_new refuses legal {m}"))?;
+        // the three checked move operations in turn; move_into writes into a buffer that holds
+        // an unrelated earlier board (as a search that reuses one buffer for siblings does)
+        match ply % 3 {
+            0 => b = b.move_new(to_cm(m)).ok_or_else(|| format!("C04 move_new refuses legal {m}"))?,
+            1 => {
+                if !b.move_mut(to_cm(m)) {
+                    return Err(format!("C04 move_mut refuses legal {m}"));
+                }
+            }
+            _ => {
+                if !b.move_into(to_cm(m), &mut scratch_buf) {
+                    return Err(format!("C04 move_into refuses legal {m}"));
+                }
+                std::mem::swap(&mut b, &mut scratch_buf);
+            }
+        }
         same(&b, &to_board(&pos)?, "moved vs scratch")?;
         add(&mut tf, &mut counts, &b, &pos, st)?;
     }
